@@ -55,6 +55,8 @@ def units(tier):
             for q in (0, 2):
                 us.append({"kind": "PointerAux", "members": [m], "offset": off, "auxpos": q})
             us.append({"kind": "PointerRoot", "members": [m], "offset": off})
+    for e in ("pointer-index", "check-index", "computed-then-stop", "peek-or-byte"):
+        us.append({"kind": "GreedyRangeIdx", "elem": e, "members": []})
     for x in BIT_COMBS:
         for k in range(0, 8):
             us.append({"kind": "InBitwise", "comb": x, "head": k, "members": []})
@@ -369,6 +371,33 @@ def check_in_bitwise(unit, data):
     return ("ok" if want[0] == "ok" else "fail"), []
 
 
+def check_greedy_idx(unit, data, pos):
+    """GreedyRange over elements that consume nothing but stop by themselves because they depend on the repetition index: the
+    list is as long as the elements allow, wherever the range is entered (also at the very end of the data)"""
+    import construct as C
+    this = C.this
+    e = unit["elem"]
+    if e == "pointer-index":
+        d, want = C.GreedyRange(C.Pointer(this._index, C.Byte)), list(data)
+    elif e == "check-index":
+        d, want = C.GreedyRange(C.Check(this._index < 3)), [None, None, None]
+    elif e == "computed-then-stop":
+        d, want = C.GreedyRange(C.Struct("i" / C.Computed(this._._index), C.Check(this.i < 2))), [{"i": 0}, {"i": 1}]
+    else:
+        # the first two elements only look ahead, later ones consume
+        d = C.GreedyRange(C.IfThenElse(this._index < 2, C.Peek(C.Byte), C.Byte))
+        rest = list(data[pos:])
+        want = ([rest[0], rest[0]] + rest) if rest else [None, None]
+    tsig = "GreedyRangeIdx(%s)" % e
+    case = {"unit": unit, "members": [], "data": data, "start": pos, "op": "parse"}
+    got = run_comb(d, data, pos)
+    end = len(data) if e == "peek-or-byte" and data[pos:] else pos
+    if got[0] != "ok" or not T.eqv(got[1], want) or got[2] != end:
+        return "bad", [{"sig": "C09/greedyrange-index-elements/%s" % tsig, "case": case,
+                        "detail": "%s entered at offset %d of %s: %r ending at %r, expected %r ending at %d" % (tsig, pos, data.hex(), got[1], got[2], want, end)}]
+    return "ok", []
+
+
 HOST = bytes([0x10, 0x11, 0x12, 0x13])
 
 
@@ -498,6 +527,16 @@ def run_unit(unit, tier):
         datas = sigma(L)
     if kind in ("PointerAux", "PointerRoot"):
         return run_pointer_stream(unit, tier, r, datas)
+    if kind == "GreedyRangeIdx":
+        for data in sigma(min(L, 3)):
+            for pos in range(0, len(data) + 1):
+                r.states += 1
+                oc, vs = check_greedy_idx(unit, data, pos)
+                r.case(nontrivial=oc == "ok", outcome=oc, transitions=2, validated=1)
+                for v in vs:
+                    r.violation(v["sig"], v["case"], v["detail"])
+        r.sample({"combinator": "GreedyRange", "element": unit["elem"]}, cap=2)
+        return r
     if kind == "InBitwise":
         for data in sigma(min(L, 3)) + [b"\xa5\x5a\xc3\x3c", b"\xff\xff\xff\xff", b"\x55" * 5]:
             r.states += 1
@@ -546,6 +585,8 @@ def replay(case):
     unit = case["unit"]
     if unit["kind"] == "InBitwise":
         return check_in_bitwise(unit, case["data"])[1]
+    if unit["kind"] == "GreedyRangeIdx":
+        return check_greedy_idx(unit, case["data"], case["start"])[1]
     comb, mds = mk_comb(unit, case["members"])
     if unit["kind"] in ("PointerAux", "PointerRoot"):
         return check_pointer_stream(unit, case["members"], comb, mds, case["data"], case["start"], case["op"], eval(case["value"]))[1]
